@@ -147,17 +147,40 @@ static json run_job(const json& job)
     if (job.contains("queries")) {
         json arr = json::array();
         const std::string qb = job.value("query_builder", "property");
+        // one_builder: every query of the list goes through ONE property builder (as a client that checks a whole query file does);
+        // otherwise each query gets a fresh one
+        const bool one_builder = job.value("one_builder", false);
+        std::unique_ptr<PropertyBuilder> shared;
+        auto make = [&]() -> std::unique_ptr<PropertyBuilder> {
+            if (qb == "tiga") return std::make_unique<TigaPropertyBuilder>(*doc);
+            return std::make_unique<PropertyBuilder>(*doc);
+        };
         for (auto& qj : job["queries"]) {
+            if (job.value("clear_errors", false)) doc->clear_errors();   // the client reports a query's diagnostics and goes on to the next query
+            if (qj.is_object()) {                                        // {"clear": true}: PropertyBuilder::clear(), what parse(FILE*) does before it reads a query file
+                if (shared) shared->clear();
+                arr.push_back(json{{"outcome", "return"}, {"cleared", true}, {"errors", json::array()}});
+                continue;
+            }
             size_t nerr = doc->get_errors().size();
             json r = guarded([&](json& r) {
-                std::unique_ptr<PropertyBuilder> pb;
-                if (qb == "tiga") pb = std::make_unique<TigaPropertyBuilder>(*doc);
-                else pb = std::make_unique<PropertyBuilder>(*doc);
-                r["ret"] = parseProperty(qj.get<std::string>().c_str(), pb.get());
+                std::unique_ptr<PropertyBuilder> own;
+                PropertyBuilder* pb;
+                if (one_builder) { if (!shared) shared = make(); pb = shared.get(); }
+                else { own = make(); pb = own.get(); }
+                const size_t before = one_builder ? pb->getProperties().size() : 0;
+                r["ret"] = parseProperty(qj.get<std::string>().c_str(), pb);
                 json props = json::array();
-                for (auto& p : pb->getProperties())
+                size_t k = 0;
+                for (auto& p : pb->getProperties()) {
+                    if (k++ < before) continue;
+                    json subj = json::array();
+                    // the formula of the strategy referred to is printed by the library: a reference to a property that no longer exists is then seen by the sanitizer build
+                    for (auto* s : p.subjections) subj.push_back(s ? s->declaration + " = " + vh::safe_str(s->intermediate) : std::string("<null>"));
                     props.push_back(json{{"type", (int)p.type}, {"s", vh::safe_str(p.intermediate)},
-                                         {"t", vh::expr_tree(p.intermediate, doc.get(), job.value("query_types", false))}});
+                                         {"t", vh::expr_tree(p.intermediate, doc.get(), job.value("query_types", false))},
+                                         {"declaration", p.declaration}, {"subjections", subj}, {"imitation", p.imitation ? json(p.imitation->declaration + " = " + vh::safe_str(p.imitation->intermediate)) : json(nullptr)}});
+                }
                 r["props"] = props;
             });
             json errs = json::array();
